@@ -364,7 +364,7 @@ def bounded(tier, seed):
     F = M.cache_factories()
     standins = []
     quick = tier == "quick"
-    pairs = PAIRS[:7] if quick else PAIRS
+    pairs = PAIRS[:6] if quick else PAIRS
     main = ["MemoryCache", "FileCache", "SQLCache.from_sqlite", "StoreCache(MemoryStore)"]
     for kind, factory in F.items():
         if kind == "NoCache":
@@ -374,49 +374,49 @@ def bounded(tier, seed):
         # ---- cache-operation granularity, B atomically inside A
         for (qa, qb) in pairs:
             na = count_ops(factory, qa, False)
-            for k in points(na, (10000 if kind in main else 6) if quick else 10000):
+            for k in points(na, (10000 if kind in main else 6) if quick else (10000 if kind in main else 16)):
                 inline_scenario(col, kind, factory, qa, qb, k, False)
                 col.nontrivial.add((kind, qa, qb, k, False))
         # ---- file open/write granularity
         if file_kind:
-            fpairs = pairs[:4] if (quick and kind == "FileCache") else (pairs[:2] if quick else pairs)
+            fpairs = pairs[:4] if kind == "FileCache" else (pairs[:2] if quick else pairs[:3])
             for (qa, qb) in fpairs:
                 na = count_ops(factory, qa, True)
                 if kind == "FileCache":
                     mp = 10000
                 elif "StoreCache" in kind:
-                    mp = 20 if quick else 600
+                    mp = 20 if quick else 120
                 else:
-                    mp = 10 if quick else 10000
-                for k in sorted(set(points(na, mp)) | set(write_points(30 if quick else 400))):
+                    mp = 10 if quick else 40
+                for k in sorted(set(points(na, mp)) | set(write_points(30 if quick else 80))):
                     inline_scenario(col, kind, factory, qa, qb, k, True)
                     col.nontrivial.add((kind, qa, qb, k, True))
         # ---- three evaluations
-        if kind == "MemoryCache" or (not quick and kind in main):
+        if kind == "MemoryCache" or (not quick and kind in main[:2]):
             for (qa, qb) in pairs:
                 qc = THIRD.get(qa)
                 if qc is None:
                     continue
                 na, nb = count_ops(factory, qa, False), count_ops(factory, qb, False)
-                for k in points(na, 8 if quick else 10000):
-                    for j in points(nb, 5 if quick else 20):
+                for k in points(na, 8 if quick else 25):
+                    for j in points(nb, 5 if quick else 12):
                         inline_scenario(col, kind, factory, qa, qb, k, False, qc=qc, j=j)
         # ---- two threads, one preemption each
-        if not any(x in kind for x in NOT_THREADABLE) and (kind in ("MemoryCache", "FileCache") or not quick):
-            for (qa, qb) in (pairs[:2] if quick else pairs):
+        if not any(x in kind for x in NOT_THREADABLE) and (kind in ("MemoryCache", "FileCache") or (not quick and kind in ("StoreCache(MemoryStore)", "MemoryCache+MemoryCache"))):
+            for (qa, qb) in (pairs[:2] if quick else pairs[:4]):
                 for file_level in ((False, True) if (file_kind and "StoreCache" not in kind) else (False,)):
                     if quick and file_level:
                         continue
                     na, nb = count_ops(factory, qa, file_level), count_ops(factory, qb, file_level)
-                    for k in points(na, 8 if quick else 40):
-                        for j in points(nb, 6 if quick else 30):
+                    for k in points(na, 8 if quick else 20):
+                        for j in points(nb, 6 if quick else 14):
                             thread_scenario(col, kind, factory, qa, qb, k, j, file_level)
         standins.append(M.standin("%s: interleavings of overlapping evaluations" % kind,
                                   "%d query pairs; B atomically at %s cache operation of A%s%s" % (
                                       len(pairs), "every" if (not quick or kind in main) else "6 evenly spread",
                                       " (+ file open/write points)" if file_kind else "",
-                                      "; 3 evaluations; 2-thread (k, j) schedules with one preemption each" if kind in ("MemoryCache", "FileCache") or not quick else ""),
-                                  col.evaluations - n0, not quick))
+                                      "; 3 evaluations; 2-thread (k, j) schedules with one preemption each" if kind in ("MemoryCache", "FileCache") else ""),
+                                  col.evaluations - n0, False))
     return dict(evaluations=col.evaluations, distinct_nontrivial=len(col.nontrivial),
                 rule="the shared cache is wrapped so that a scheduler runs before every cache operation (for file-backed caches also before every open()/write() "
                      "of liquer.cache / liquer.store): B (and C) run to completion inside A at each operation index k; for thread-usable kinds A and B also run "
